@@ -81,7 +81,7 @@ Qed.
 Lemma step_tbl : forall st o, Inv st -> tbl_ok st (fst (step st o)).
 Proof.
   intros st o H. unfold step.
-  destruct o as [sid|sid r|sid|sid|sid i| |sid|sid|r|i node|i|k| | | |sid k|sid| ]; cbn [step_fx]; cbv zeta.
+  destruct o as [sid|sid r|sid|sid|sid i| |sid|sid|r|i node|i|k| | | |sid k|sid| |r|k|sid|sid]; cbn [step_fx]; cbv zeta.
   - destruct (sess_ctx st sid) as [s|]; [|apply tbl_ok_refl].
     destruct (negb (allowed st s)); [apply tbl_ok_refl|].
     destruct (st_fs st) as [|f fl]; [|destruct (f =? s_fab s); apply tbl_ok_refl].
@@ -141,6 +141,15 @@ Proof.
     destruct (negb (can_view st s)); [apply tbl_ok_refl|].
     destruct (Nat.leb _ _); [apply tbl_ok_refl|]. apply tbl_ok_same; reflexivity.
   - destruct (table_full st); [apply tbl_ok_refl|]. apply tbl_ok_same; reflexivity.
+  - destruct (find _ _) as [f|]; [|apply tbl_ok_refl].
+    destruct (table_full st); [apply tbl_ok_refl|]. apply tbl_ok_same; reflexivity.
+  - destruct (rget k (st_recs st)) as [r|]; [|apply tbl_ok_refl].
+    destruct (fget (r_fab r) (st_fabs st)) as [f|]; [|apply tbl_ok_refl].
+    destruct (table_full st); [apply tbl_ok_refl|]. apply tbl_ok_same; reflexivity.
+  - destruct (sget sid (st_sess st)) as [s|]; [|apply tbl_ok_refl].
+    destruct (s_res s); [|apply tbl_ok_refl]. apply tbl_ok_same; reflexivity.
+  - destruct (sget sid (st_sess st)) as [s|]; [|apply tbl_ok_refl].
+    destruct (s_res s); [|apply tbl_ok_refl]. apply tbl_ok_same; reflexivity.
 Qed.
 
 (** ** gone / unreferenced *)
@@ -281,6 +290,125 @@ Proof.
   destruct (fget (r_fab r) (st_fabs st)) as [f|] eqn:G; [|discriminate Hs].
   exists r, f. repeat split; auto. destruct (rget_In _ _ _ R) as [Hr _].
   destruct (inv_recs _ H r Hr) as (g & G' & Eg). congruence.
+Qed.
+
+Lemma resume_begin_only_current :
+  forall st k st', Inv st -> step st (OResumeBegin k) = (st', StOk) ->
+    exists r f, rget k (st_recs st) = Some r /\ fget (r_fab r) (st_fabs st) = Some f /\
+                f_inc f = r_inc r.
+Proof.
+  intros st k st' H Hs. unfold step in Hs. cbn [step_fx] in Hs.
+  destruct (rget k (st_recs st)) as [r|] eqn:R; [|discriminate Hs].
+  destruct (fget (r_fab r) (st_fabs st)) as [f|] eqn:G; [|discriminate Hs].
+  exists r, f. repeat split; auto. destruct (rget_In _ _ _ R) as [Hr _].
+  destruct (inv_recs _ H r Hr) as (g & G' & Eg). congruence.
+Qed.
+
+(** ** Nothing is left behind (the tight form; reserved handshake slots included) *)
+Theorem inv_tight : forall st, Inv st -> nothing_left_behind st.
+Proof.
+  intros st H. unfold nothing_left_behind, live_at. repeat split.
+  - apply (inv_sess _ H).
+  - apply (inv_recs _ H).
+  - apply (inv_subs _ H).
+Qed.
+
+Theorem nothing_left_behind_all : forall st ops, Inv st -> nothing_left_behind (exec st ops).
+Proof. intros st ops H. apply inv_tight. apply invariant_exec. exact H. Qed.
+
+Lemma live_at_b_iff : forall fabs i c, live_at_b fabs i c = true <-> live_at fabs i c.
+Proof.
+  intros fabs i c. unfold live_at_b, live_at, cur_inc. destruct (fget i fabs) as [f|]; cbn [opt_eqb].
+  - rewrite N.eqb_eq. split; [intro E; exists f; auto|intros (g & G & E); congruence].
+  - split; [discriminate|intros (g & G & _); discriminate G].
+Qed.
+
+Theorem tight_b_correct : forall st, tight_b st = true <-> nothing_left_behind st.
+Proof.
+  intro st. unfold tight_b, nothing_left_behind, sessions_tight, records_tight, subs_tight.
+  rewrite !andb_true_iff, !forallb_forall. split.
+  - intros [[Hs Hr] Hu]. repeat split.
+    + intros s Hin He Hf. specialize (Hs s Hin). rewrite He in Hs. apply N.eqb_neq in Hf.
+      rewrite Hf in Hs. cbn [orb] in Hs. apply live_at_b_iff; exact Hs.
+    + intros r Hin. apply live_at_b_iff. auto.
+    + intros u Hin. apply live_at_b_iff. auto.
+  - intros (Hs & Hr & Hu). repeat split.
+    + intros s Hin. destruct (s_exp s) eqn:He; [reflexivity|].
+      destruct (s_fab s =? 0) eqn:Hf; [reflexivity|]. cbn [orb]. apply N.eqb_neq in Hf.
+      apply live_at_b_iff. auto.
+    + intros r Hin. apply live_at_b_iff. auto.
+    + intros u Hin. apply live_at_b_iff. auto.
+Qed.
+
+Theorem left_behind_free_bound :
+  forall st, nothing_left_behind st ->
+    (forall s, In s (st_sess st) -> usable s = true -> sess_bound st s) /\
+    (forall r, In r (st_recs st) -> rec_bound (st_fabs st) r) /\
+    (forall u, In u (st_subs st) -> sub_bound (st_fabs st) u).
+Proof.
+  intros st (Hs & Hr & Hu). repeat split.
+  - intros s Hin Hus. unfold sess_bound. destruct (N.eq_dec (s_fab s) 0) as [E|E]; [left; exact E|right].
+    unfold usable in Hus. apply andb_true_iff in Hus. destruct Hus as [He _]. apply negb_true_iff in He.
+    destruct (Hs s Hin He E) as (f & G & Ef). unfold cur_inc. rewrite G, Ef. reflexivity.
+  - intros r Hin f G. destruct (Hr r Hin) as (g & G' & E). congruence.
+  - intros u Hin f G. destruct (Hu u Hin) as (g & G' & E). congruence.
+Qed.
+
+(** ** Removal purges the session slots of the index (reserved ones included) *)
+Theorem removal_purges_slots :
+  forall st sid i st', step st (ORemove sid i) = (st', StOk) ->
+    forall x, In x (st_sess st') -> s_fab x = i -> s_exp x = true.
+Proof.
+  intros st sid i st' Hs x Hx Hf. unfold step in Hs. cbn [step_fx] in Hs.
+  destruct (sess_ctx st sid) as [s|]; [|discriminate Hs].
+  destruct (negb (allowed st s)); [discriminate Hs|].
+  destruct (i =? 0); [discriminate Hs|].
+  destruct (fget i (st_fabs st)) as [fb|]; [|discriminate Hs].
+  inversion Hs; subst st'. cbn [drop_bound fx_drop_bound repaired] in Hx. sp.
+  apply In_remove_for_fabric in Hx. destruct Hx as (y & Hy & [[-> Hne]| ->]); [contradiction|reflexivity].
+Qed.
+
+Lemma expire_rollback_sess : forall st keep i fl,
+  st_fs st = Armed i fl -> i <> 0 -> fget i (st_kvfabs st) = None ->
+  forall x, In x (st_sess (expire repaired st keep)) -> s_fab x = i -> s_exp x = true.
+Proof.
+  intros st keep i fl Efs Hi K x. unfold expire. rewrite Efs. apply N.eqb_neq in Hi. rewrite Hi. cbv zeta.
+  rewrite K. cbn [drop_bound fx_drop_bound fx_expire_sessions repaired]. sp. intros Hx Hf.
+  apply In_remove_for_fabric in Hx. destruct Hx as (y & Hy & [[-> Hne]| ->]); [contradiction|reflexivity].
+Qed.
+
+Theorem rollback_purges_slots :
+  forall st o i fl, Inv st -> is_expiry o = true -> st_fs st = Armed i fl -> i <> 0 ->
+    fget i (st_kvfabs st) = None -> snd (step st o) = StOk ->
+    forall x, In x (st_sess (fst (step st o))) -> s_fab x = i -> s_exp x = true.
+Proof.
+  intros st o i fl H Ho Efs Hi K Hok x.
+  destruct o; try discriminate Ho; unfold step in *; cbn [step_fx] in *.
+  - cbn [fst]. apply (expire_rollback_sess st None i fl Efs Hi K).
+  - destruct (sess_ctx st s) as [ss|]; [|discriminate Hok].
+    destruct (negb (allowed st ss)); [discriminate Hok|].
+    cbn [fst]. apply (expire_rollback_sess st (Some (s_id ss)) i fl Efs Hi K).
+  - destruct (sess_ctx st s) as [ss|]; [|discriminate Hok].
+    destruct (negb (allowed st ss)); [discriminate Hok|].
+    cbn [fst]. apply (expire_rollback_sess st (Some (s_id ss)) i fl Efs Hi K).
+Qed.
+
+(** ** The last step of a handshake *)
+Theorem finish_after_removal_void :
+  forall st sid, sget sid (st_sess st) = None ->
+    step st (OFinishFull sid) = (st, StGone) /\ step st (OFinishResume sid) = (st, StGone).
+Proof. intros st sid G. unfold step. cbn [step_fx]. rewrite G. split; reflexivity. Qed.
+
+Theorem finish_only_live :
+  forall st sid st', Inv st -> step st (OFinishResume sid) = (st', StOk) ->
+    exists s f, sget sid (st_sess st) = Some s /\ s_res s = true /\
+                fget (s_fab s) (st_fabs st) = Some f /\ f_inc f = s_inc s.
+Proof.
+  intros st sid st' H Hs. unfold step in Hs. cbn [step_fx] in Hs.
+  destruct (sget sid (st_sess st)) as [s|] eqn:G; [|discriminate Hs].
+  destruct (s_res s) eqn:Er; [|discriminate Hs].
+  destruct (sget_In _ _ _ G) as [Hin _]. destruct (inv_res _ H s Hin Er) as (f & Gf & E).
+  exists s, f. auto.
 Qed.
 
 (** ** Frame *)
@@ -427,7 +555,9 @@ Proof.
   assert (H1 : Inv st1).
   { pose proof (invariant_step st o H) as Hi. rewrite Hs in Hi. exact Hi. }
   pose proof (proj2 (bound_b_correct st1) (inv_bound _ H1)) as Hb. unfold bound_b in Hb.
-  rewrite !andb_true_iff in Hb. destruct Hb as [[[B1 B2] B3] B4].
+  rewrite !andb_true_iff in Hb. destruct Hb as [[[_ _] _] B4].
+  pose proof (proj2 (tight_b_correct st1) (inv_tight _ H1)) as Ht. unfold tight_b in Ht.
+  rewrite !andb_true_iff in Ht. destruct Ht as [[B1 B2] B3].
   unfold step_verdict. rewrite B1, B2, B3, B4. cbn [app].
   assert (Hframe : match removes st o with
                    | Some (i, pase) => if negb (status_ok r1) || frame_ok i pase st st1 then [] else [5]
@@ -451,6 +581,10 @@ Proof.
     unfold request_ok. rewrite Sg, U. apply N.eqb_neq in Hf. rewrite Hf. cbn [negb andb].
     unfold sess_bound_b, cur_inc. rewrite G. cbn [opt_eqb]. apply N.eqb_eq in E. rewrite E.
     rewrite orb_true_r. reflexivity.
+  - (* OResumeBegin *)
+    destruct r1; try reflexivity. cbn [status_ok negb orb].
+    destruct (resume_begin_only_current st k st1 H Hs) as (r & f & R & G & E).
+    unfold resume_ok. rewrite R, G. apply N.eqb_eq in E. rewrite E. reflexivity.
 Qed.
 
 Theorem monitor_model_clean :
